@@ -497,18 +497,26 @@ pub fn partition_id_sequence<'a>() -> impl Parser<FrameStream<'a>, Output = (Par
 
 // <s1>=<v1>
 pub fn stream_id_version<'a>() -> impl Parser<FrameStream<'a>, Output = (StreamId, u64)> + 'a {
-    string()
-        .and_then(|s| {
-            let (stream_id, version) = s
-                .split_once('=')
-                .ok_or_else(|| easy::Error::message_format("missing `=` in stream id version"))?;
-            let stream_id = StreamId::new(stream_id).map_err(easy::Error::message_format)?;
-            let version: u64 = version
-                .parse()
-                .map_err(|_| easy::Error::message_format("invalid stream id version number"))?;
-            Ok::<_, easy::Error<_, _>>((stream_id, version))
-        })
-        .expected("stream id version value")
+    // A token without `=` is not an entry: it is left unconsumed so that a repetition of
+    // entries ends where the next clause (WINDOW) begins.
+    satisfy_map(|frame: &'a BytesFrame| match frame {
+        BytesFrame::BlobString { data, .. }
+        | BytesFrame::SimpleString { data, .. }
+        | BytesFrame::VerbatimString {
+            data,
+            format: VerbatimStringFormat::Text,
+            ..
+        } => str::from_utf8(data).ok().and_then(|s| s.split_once('=')),
+        _ => None,
+    })
+    .and_then(|(stream_id, version)| {
+        let stream_id = StreamId::new(stream_id).map_err(easy::Error::message_format)?;
+        let version: u64 = version
+            .parse()
+            .map_err(|_| easy::Error::message_format("invalid stream id version number"))?;
+        Ok::<_, easy::Error<_, _>>((stream_id, version))
+    })
+    .expected("stream id version value")
 }
 
 /// Words that introduce a clause in some command. They are never read as a stream id
